@@ -786,11 +786,15 @@ def resume_tests(script_parts, options, features, layers, failures, errors,
     ready_threads = []
     for layer_name, layer, tests in layers:
         result = result_factory(layer_name, stdout_queue)
+        # Each layer collects its outcomes in lists of its own.  They join
+        # the lists of the run in layer order (below, when the layer's
+        # output is displayed), whatever order the subprocesses finish in.
+        result.outcomes = ([], [], [])
         results.append(result)
         ready_threads.append(threading.Thread(
             target=spawn_layer_in_subprocess,
-            args=(result, script_parts, options, features, layer_name, layer,
-                  failures, errors, skipped, resume_number, cwd)))
+            args=(result, script_parts, options, features, layer_name, layer)
+            + result.outcomes + (resume_number, cwd)))
         resume_number += 1
 
     # Now start a few threads at a time.
@@ -841,6 +845,9 @@ def resume_tests(script_parts, options, features, layers, failures, errors,
                 stdout.write(b']\n')
                 output = None
             stdout.writelines(current_result.stdout)
+            for outcomes, own in zip((failures, errors, skipped),
+                                     current_result.outcomes):
+                outcomes.extend(own)
 
             try:
                 current_result = next(results_iter)
